@@ -7,9 +7,10 @@
      - the deadline `nextTime = GetTime() + maxExecTime` (0 when no limit is configured) is
        computed from one clock reading at the start of Execute;
      - Process reads the clock once on entry (cmdTime) and, AFTER every executed
-       instruction, tests `interruptTime && cmdTime >= interruptTime` with the reading
-       taken BEFORE that instruction, throws CommandOverflow or reads the clock again; the
-       test is made even when the instruction ended or suspended the thread;
+       instruction, tests `state == Running && interruptTime && cmdTime >= interruptTime`
+       with the reading taken BEFORE that instruction, throws CommandOverflow or reads the
+       clock again; a thread that just ended or yielded (wait) is not polled, only the
+       clock is read once more;
      - Execute's catch arms: CommandOverflow -> loop protection on: print the source
        position to the Error stream if attached, state = Idling, rethrow; off: print to the
        Debug stream if attached, nextTime = GetTime() + limit, call Process again (one more
@@ -252,11 +253,9 @@ Fixpoint run_instrs (p : prog) (tid : N) (s : st) (cmd D : N) {struct p} : optio
   | (a1, Some (cmd1, D1)) =>
       match p with
       | PEnd =>
-          (* the `end` command: the thread is gone, the poll still happens *)
-          match post (count a1) cmd1 D1 with
-          | (a2, None) => Some (with_core s a2, RRaise EOverflow)
-          | (a2, Some _) => Some (with_core s a2, RDone)
-          end
+          (* the `end` command: the thread is gone; no poll (the VM is not Running any
+             more), only the reading at the end of the loop body *)
+          let '(a2, _) := tick (count a1) in Some (with_core s a2, RDone)
       | PWork n k =>
           match plain n a1 cmd1 D1 with
           | (a2, None) => Some (with_core s a2, RRaise EOverflow)
@@ -273,11 +272,8 @@ Fixpoint run_instrs (p : prog) (tid : N) (s : st) (cmd D : N) {struct p} : optio
           | (a2, Some (cmd2, D2)) => run_instrs k tid (with_core s a2) cmd2 D2
           end
       | PWait d k =>
-          (* ScriptThread::Wait: the timer gets the thread, the VM is suspended *)
-          match post (add_timing tid d k (count a1)) cmd1 D1 with
-          | (a2, None) => Some (with_core s a2, RRaise EOverflow)
-          | (a2, Some _) => Some (with_core s a2, RDone)
-          end
+          (* ScriptThread::Wait: the timer gets the thread, the VM is suspended: no poll *)
+          let '(a2, _) := tick (add_timing tid d k (count a1)) in Some (with_core s a2, RDone)
       | PFault k =>
           (* ScriptException: warning, Process is entered again *)
           let '(a2, cmd2) := tick (log_warn (count a1)) in
